@@ -141,11 +141,20 @@ impl Oracle {
 
     /// validate an already sanitized value
     pub fn validate(&self, spec: &Spec, v: &Value) -> (Vec<Outcome>, usize, Option<usize>) {
-        if let Some(f) = spec.custom {
+        if let (Some(f), true) = (spec.custom, spec.vals.is_empty()) {
             return match f(v) {
                 Ok(()) => (vec![Outcome::Accept], 0, None),
                 Err(e) => (vec![Outcome::RejectCustom(e)], 1, Some(0)),
             };
+        }
+        // a declaration that writes built-in validators *and* a custom one (normally refused): every written rule counts;
+        // `custom_first` says the custom validator was written before the built-in ones
+        if let Some(f) = spec.custom {
+            if spec.has_tag("custom_first") {
+                if let Err(e) = f(v) {
+                    return (vec![Outcome::RejectCustom(e)], 1, Some(0));
+                }
+            }
         }
         let rx = |p: &str, s: &str| self.regex_match(p, s);
         let mut allowed = Vec::new();
@@ -171,6 +180,11 @@ impl Oracle {
             }
         }
         if open {
+            if let (Some(f), false) = (spec.custom, spec.has_tag("custom_first")) {
+                if let Err(e) = f(v) {
+                    return (vec![Outcome::RejectCustom(e)], n_violated + 1, Some(spec.vals.len()));
+                }
+            }
             allowed.push(Outcome::Accept);
         }
         (allowed, n_violated, first)
